@@ -26,14 +26,18 @@ func readRules(input io.Reader) ([]rule, error) {
 
 	for scanner.Scan() {
 		pattern := scanner.Text()
-		// Ignore blank lines
+		// Trim spaces
+		pattern = strings.TrimSpace(pattern)
+		// Ignore blank lines, including those made of spaces only
 		if len(pattern) == 0 {
 			continue
 		}
-		// Trim spaces
-		pattern = strings.TrimSpace(pattern)
 		// Ignore comments
 		if pattern[0] == '#' {
+			continue
+		}
+		// A negation mark with nothing after it is not a rule
+		if pattern == "!" {
 			continue
 		}
 		// New rule structure
